@@ -429,7 +429,21 @@ func judge(out *reg.Out, q *tn.Query, loc, rem []int, p Params, base, pr *runOut
 	known := c02Class(q, ref, copySet(locS), remS, 0)
 	if known == "" && p.Side == 0 && pr.pauses > 0 {
 		// the resumed request goes online again after the pause point: the k-th successful load
-		for _, k := range p.K {
+		// blocks loaded when each pause took effect: counted from the paused run's own event log (for
+		// mech=step the header's k is a scheduler step, not a block index)
+		var ks []int
+		pr.sim.Locked(func() {
+			for _, ps := range pr.pauseSeq {
+				n := 0
+				for _, e := range pr.sim.Log {
+					if e.Kind == tn.EvReqHook && e.Seq < ps {
+						n++
+					}
+				}
+				ks = append(ks, n)
+			}
+		})
+		for _, k := range ks {
 			cnt, from := 0, len(ref)
 			for i, st := range ref {
 				if st.Avail {
@@ -844,18 +858,40 @@ func genSplit(r *rand.Rand, w *tn.World, q *tn.Query, kind int) (loc, rem []int)
 	return
 }
 
-func genParams(r *rand.Rand, q *tn.Query, i int) Params {
+func genParams(r *rand.Rand, q *tn.Query, i int, loc, rem []int) Params {
 	p := Params{Res: "api", W: [5]int{1, 1, 1, 1, 1}}
 	p.Side = i % 2
 	p.Mech = []string{"hook", "api", "hook", "step"}[(i/2)%4]
-	n := len(q.LT)
+	// number of block-hook calls on the pausing side in the uninterrupted exchange (reference semantics)
+	locS, remS := tn.SetOf(loc), tn.SetOf(rem)
+	n := 0
+	if p.Side == 0 {
+		for _, st := range q.RefTrav(locS, remS) {
+			if st.Avail {
+				n++
+			}
+		}
+	} else {
+		_, pres := q.ResponderStream(remS)
+		for _, b := range pres {
+			if b {
+				n++
+			}
+		}
+	}
+	if n < 1 {
+		n = 1
+	}
 	k := 1 + r.Intn(n)
+	if r.Intn(12) == 0 {
+		k = n + 1 + r.Intn(3) // a pause point that is never reached
+	}
 	p.K = []int{k}
 	if r.Intn(5) == 0 {
 		p.K = append(p.K, k+1+r.Intn(n))
 	}
 	if p.Mech == "step" {
-		p.K = []int{r.Intn(3 * n)}
+		p.K = []int{r.Intn(n + 4)}
 	}
 	if p.Side == 1 && r.Intn(3) == 0 {
 		p.Res = "upd"
@@ -921,7 +957,11 @@ func Gen(seed int64, n int, tier string, wr *bufio.Writer) {
 			}
 		}
 		loc, rem := genSplit(r, w, q, r.Intn(5))
-		p := genParams(r, q, i)
+		if !tn.SetOf(rem)[q.LT[0].Block] && !tn.SetOf(loc)[q.LT[0].Block] && r.Intn(4) != 0 {
+			rem = append(rem, q.LT[0].Block) // mostly: somebody holds the root
+			sort.Ints(rem)
+		}
+		p := genParams(r, q, i, loc, rem)
 		p.Seed, p.MB, p.Sel = ws, mb, name
 		emit(wr, fmt.Sprintf("p%d", i), p, loc, rem)
 	}
